@@ -718,6 +718,11 @@ func c04RunOpt(e *Env, tr string, faults bool, audit bool) {
 			if !faults && !x.cancelled {
 				e.Probe("transfer.failedWithoutFaults")
 				e.Logf("note: fault-free transfer n=%d (%s up=%d down=%d) failed: %s", x.nonce, name, x.upSize, x.downSize, trimErr(err))
+				if tr == TrUDP {
+					// On the fault-free datagram network nothing is lost or duplicated and time only passes when nothing is
+					// left to deliver: the exchange can complete, so it has to (as in the scripted fault-free downloads)
+					e.Violate("C04.R5", "fault-free-transfer-failed:"+name, "transfer n=%d (%s up=%d down=%d) on a network without faults, not cancelled, ended with: %s", x.nonce, name, x.upSize, x.downSize, trimErr(err))
+				}
 			}
 		}
 	}
